@@ -62,8 +62,11 @@ def mod_path(state: dict[str, Any], mid: str, stub: bool = False) -> str:
 
 def ref_name(state: dict[str, Any], mid: str, imp: dict[str, Any], name: str) -> str:
     style = imp["style"]
-    if style in ("from", "star"):
+    if style == "star":
         return name
+    if style == "from":
+        # imported under an alias, so that it never collides with a local definition
+        return imp["mod"].replace(".", "_") + "_" + name
     return imp["mod"] + "." + name
 
 
@@ -240,7 +243,8 @@ def render_import(state: dict[str, Any], mid: str, mod: dict[str, Any], imp: dic
         return [f"import {target}{ign}"]
     if style == "from":
         nm = sorted(set(names)) or ["f0"]
-        return [f"from {target} import {', '.join(nm)}{ign}"]
+        al = target.replace(".", "_")
+        return [f"from {target} import {', '.join(f'{n} as {al}_{n}' for n in nm)}{ign}"]
     if style == "star":
         return [f"from {target} import *{ign}"]
     if style == "tc":
@@ -283,7 +287,8 @@ def render_module(state: dict[str, Any], mid: str, stub: bool = False) -> str:
             collect(a)
     for i, imp in enumerate(mod["imports"]):
         lines.extend(render_import(state, mid, mod, imp, names_by_imp.get(i, [])))
-    for name in sorted(mod["slots"]):
+    order = {"C": 0, "A": 1, "v": 2, "f": 3}
+    for name in sorted(mod["slots"], key=lambda n: (order.get(n[0], 9), n)):
         sl = render_slot(state, mid, mod, name, mod["slots"][name])
         if stub:
             sl = [l if not l.startswith("    return") else "    ..." for l in sl]
